@@ -148,5 +148,8 @@ EmitCase == Emit => PrintT(<<"CASE", ToJson([ins |-> ins, cf |-> CF,
 PathsQuick == {<<3>>, <<4>>, <<1, 1>>, <<1, 2>>, <<2, 1>>, <<1, 3>>, <<1, 3, 1>>}
 \* quick tier: one sibling directory less (root directories are still a, and opaque c / d)
 PathsSmall == PathsQuick \ {<<2, 1>>}
+\* a root directory 2 next to the nested directory 1/3: the binding renders the names 1, 2, 3 as a, ab, b (byte order =
+\* numeric order), so that the two directories `ab` and `a/b` differ only in where the separator stands
+PathsCollide == {<<3>>, <<2, 1>>, <<1, 3>>, <<1, 3, 1>>, <<1, 1>>}
 PathsThorough == PathsQuick \cup {<<1>>, <<2, 2>>, <<1, 3, 2>>, <<2, 1, 1>>}
 =============================================================================
